@@ -98,7 +98,8 @@ class ConvKind(Kind):
             # quick: 2 guesses x 2 samples (small Coq literals: elaborating them is what the coqc shards spend their time on)
             return {'cls': cls, 'step': step, 'runs': [list(r) for r in runs], 'data_seed': seed,
                     'G': 3 if thorough else 2, 'W': L if thorough else 2,
-                    'disc': rng.choice(list(base.DISCS)), 'prec': rng.choice(['float32', 'float64']) if cls in ('CPA', 'DPA') else 'float64'}
+                    'disc': rng.choice(list(base.DISCS)), 'prec': (rng.choice(['float32', 'float64']) if cls in ('CPA', 'DPA') else
+                             rng.choice(['float64', 'float64', 'uint32']) if cls == 'MIA' else 'float64')}
         if thorough:
             for n in range(1, 31):
                 for bs in list(range(1, 13)) + [40]:
@@ -116,6 +117,14 @@ class ConvKind(Kind):
                         if 1 <= st <= 50 and (n, bs, st) not in seen:
                             seen.add((n, bs, st))
                             yield mk('CPA', st, [(n, bs)])
+            # derived batch size NOT dividing the step, N a multiple of the step: the last batch does not close a step although
+            # processed_traces % step == 0 (step 7, bs 3, N 14 / 21 / 28: points 9, 18, 27 then a Remainder)
+            for k, (st, bs) in enumerate(((7, 3), (5, 2), (7, 2), (9, 2), (10, 3), (11, 3), (13, 5), (9, 4))):
+                for n in range(2 * st, 31, st):
+                    if (n, bs, st) not in seen:
+                        seen.add((n, bs, st))
+                        yield mk('CPA', st, [(n, bs)])
+                yield mk(ATTACKS[1 + k % 5], st, [(2 * st, bs)], seed=1)
             # a sample of the full grid, drawn from the seed
             for _ in range(330):
                 yield mk('CPA', rng.choice(list(range(1, 33)) + [50]), [(rng.randint(1, 30), rng.choice(list(range(1, 13)) + [40]))])
